@@ -115,7 +115,9 @@ def o_copy_independent(seq: str, npos: int, glob: bool, nint: int, amb: bool, wh
 
 _PERT = ["none", "reorder", "value", "mult", "position", "interval_start", "interval_end", "interval_amb", "charge", "drop", "duplicate",
          "residue", "nterm_value", "labile_drop", "static_value", "isotope_value", "adduct_value", "interval_mod", "interval_reorder",
-         "nterm_reorder", "interval_mod_mult"]
+         "nterm_reorder", "interval_mod_mult",
+         # multisets, not sets: [A, A, B] differs from [A, B, B] (same length, same set of distinct modifications)
+         "multiset_internal", "multiset_mult", "multiset_nterm", "multiset_cterm", "multiset_labile", "multiset_unknown", "multiset_interval"]
 
 
 def o_equality(seq: str, glob: bool, nint: int, pert: int, excl=()) -> bool:
@@ -128,9 +130,16 @@ def o_equality(seq: str, glob: bool, nint: int, pert: int, excl=()) -> bool:
     kind = _PERT[pert]
     L = len(seq)
 
-    def make(p):
+    def tri(x: Mod, y: Mod, side: int):
+        return [x, Mod(x.val, x.mult), y] if side == 0 else [x, y, Mod(y.val, y.mult)]
+
+    def make(p, side: int = 0):
         kw: Dict[str, Any] = {}
         mods0 = [Mod("m0", 1), Mod("m1", 2)]
+        if p == "multiset_internal":
+            mods0 = tri(Mod("m0", 1), Mod("m1", 2), side)
+        if p == "multiset_mult":
+            mods0 = tri(Mod("m0", 2), Mod("m0", 3), side)
         if p == "reorder":
             mods0 = mods0[::-1]
         if p == "value":
@@ -148,20 +157,26 @@ def o_equality(seq: str, glob: bool, nint: int, pert: int, excl=()) -> bool:
             ivm = [Mod("iv" if p != "interval_mod" else "ivX", 1), Mod("iw", 2 if p != "interval_mod_mult" else 3)]
             if p == "interval_reorder":
                 ivm = ivm[::-1]
+            if p == "multiset_interval":
+                ivm = tri(Mod("iv", 1), Mod("iw", 2), side)
             kw["intervals"] = [Interval(0 + (1 if p == "interval_start" and L > 1 else 0), L - (1 if p == "interval_end" and L > 1 else 0),
                                         p == "interval_amb", ivm)]
         if glob:
             ntm = [Mod("nt" if p != "nterm_value" else "ntX", 1), Mod("nu", 1)]
-            kw.update(nterm_mods=ntm[::-1] if p == "nterm_reorder" else ntm, cterm_mods=[Mod("ct", 2)],
-                      labile_mods=[Mod("lab", 1)] if p != "labile_drop" else None,
+            if p == "multiset_nterm":
+                ntm = tri(Mod("nt", 1), Mod("nu", 1), side)
+            kw.update(nterm_mods=ntm[::-1] if p == "nterm_reorder" else ntm,
+                      cterm_mods=[Mod("ct", 2)] if p != "multiset_cterm" else tri(Mod("ct", 2), Mod("cu", 1), side),
+                      labile_mods=([Mod("lab", 1)] if p != "multiset_labile" else tri(Mod("lab", 1), Mod("lac", 1), side)) if p != "labile_drop" else None,
                       static_mods=[Mod("[st]@" + seq[0] if p != "static_value" else "[stX]@" + seq[0], 1)],
-                      isotope_mods=[Mod("13C" if p != "isotope_value" else "15N", 1)], unknown_mods=[Mod("unk", 1)],
+                      isotope_mods=[Mod("13C" if p != "isotope_value" else "15N", 1)],
+                      unknown_mods=[Mod("unk", 1)] if p != "multiset_unknown" else tri(Mod("unk", 1), Mod("unl", 1), side),
                       charge=2 if p != "charge" else 3, charge_adducts=[Mod("+2Na+" if p != "adduct_value" else "+Na+", 1)])
         s = seq if p != "residue" else ("W" + seq[1:])
         return create_annotation(s, **kw)
 
-    a = make("none")
-    b = make(kind)
+    a = make("none") if not kind.startswith("multiset") else make(kind, 0)
+    b = make(kind) if not kind.startswith("multiset") else make(kind, 1)
     # perturbations that need a feature which is absent leave the annotation unchanged
     effective = kind
     if kind in ("interval_start", "interval_end", "interval_amb", "interval_mod", "interval_reorder", "interval_mod_mult") and not nint:
@@ -169,6 +184,10 @@ def o_equality(seq: str, glob: bool, nint: int, pert: int, excl=()) -> bool:
     if kind in ("interval_start", "interval_end") and L == 1:
         effective = "none"
     if kind in ("charge", "nterm_value", "labile_drop", "static_value", "isotope_value", "adduct_value", "nterm_reorder") and not glob:
+        effective = "none"
+    if kind == "multiset_interval" and not nint:
+        effective = "none"
+    if kind in ("multiset_nterm", "multiset_cterm", "multiset_labile", "multiset_unknown") and not glob:
         effective = "none"
     if kind == "position" and L == 1:
         effective = "drop"
@@ -180,6 +199,14 @@ def o_equality(seq: str, glob: bool, nint: int, pert: int, excl=()) -> bool:
         ab = (a == b)
         ba = (b == a)
         ne = (a != b)
+        # an interval compared on its own follows the same rule as inside an annotation
+        iv_ok = True
+        if nint and a.intervals and b.intervals:
+            iv_equal = (a.intervals[0] == b.intervals[0])
+            iv_want = effective not in ("interval_start", "interval_end", "interval_amb", "interval_mod", "interval_mod_mult", "multiset_interval")
+            iv_ok = (iv_equal == iv_want) and ((b.intervals[0] == a.intervals[0]) == iv_want)
+    if not iv_ok:
+        return _fail(why="Interval == gives the wrong answer", kind=kind, a=a.serialize(), b=b.serialize())
     if refl is not True:
         return _fail(why="== not reflexive")
     if ab != ba:
